@@ -26,7 +26,7 @@ BIN = ['and', 'or', 'implies', 'iff', 'xor', 'add', 'sub', 'mul', 'leq', 'lt', '
 BINT = ['since_t', 'until_t']
 
 
-def h_op(f, ns, start='zero', kind='offline', same_start=False, grids=None, itext=None):
+def h_op(f, ns, start='zero', kind='offline', same_start=False, grids=None, itext=None, ext=False):
     f = T(f)
     op = f[0]
     binary = op in BIN or op in BINT
@@ -41,9 +41,9 @@ def h_op(f, ns, start='zero', kind='offline', same_start=False, grids=None, itex
         s = ct.make_spec(kind, 'out = ' + (text(f).replace('[%d,%d]' % (a, b), itext) if itext else text(f)), vs)
         if grids:
             # concrete (unaligned) time-stamps, symbolic values: more samples per signal at the price of fixed sampling instants
-            sigs = [ct.signal(env, v, len(g), start, grid=g) for v, g in zip(vs, grids)]
+            sigs = [ct.signal(env, v, len(g), start, grid=g, ext=ext) for v, g in zip(vs, grids)]
         else:
-            sigs = [ct.signal(env, v, n, start) for v, n in zip(vs, ns)]
+            sigs = [ct.signal(env, v, n, start, ext=ext) for v, n in zip(vs, ns)]
         if binary and same_start and not grids:
             env.assume(A.eq(sigs[0][0][0], sigs[1][0][0]))
         out = s.evaluate(*[[v, [list(p) for p in sg]] for v, sg in zip(vs, sigs)])
@@ -181,6 +181,19 @@ def obligations(tier, rng):
             if not quick:
               out.append(ob('C04', 'op', 'zero/%s/n=[3, 2]%s' % (text(f), '/same-start' if k == 'since_t' else ''), f=f, ns=[3, 2], start='zero',
                           same_start=(k == 'since_t'), max_paths=100000, wall=1500))
+    # operand values over the EXTENDED reals: the bounded past operators pad with -inf/+inf, so an operator above them is fed infinite
+    # segments (per-operator correctness on arbitrary operand signals is what carries to nested formulas)
+    for k in ['not', 'once', 'historically', 'eventually', 'always']:
+        out.append(ob('C04', 'op', 'ext/%s/n=3' % text((k, X)), f=(k, X), ns=[3], ext=True, max_paths=20000, wall=600))
+    for k in UNT:
+        for a, b in ([(1, 2)] if quick else [(0, 1), (1, 2)]):
+            out.append(ob('C04', 'op', 'ext/%s/n=3' % text((k, X, a, b)), f=(k, X, a, b), ns=[3], ext=True, max_paths=20000, wall=600))
+    for k in ['and', 'or', 'implies', 'since', 'until', 'leq']:
+        for ns in ([[2, 2]] if quick else [[2, 2], [3, 2], [2, 3]]):
+            out.append(ob('C04', 'op', 'ext/%s/n=%s' % (text((k, X, Y)), ns), f=(k, X, Y), ns=ns, ext=True, max_paths=60000, wall=1500))
+    for k in BINT:
+        out.append(ob('C04', 'op', 'ext/%s/n=[2, 2]%s' % (text((k, X, Y, 0, 1)), '/same-start' if k == 'since_t' else ''), f=(k, X, Y, 0, 1), ns=[2, 2], ext=True,
+                      same_start=(k == 'since_t'), max_paths=60000, wall=1500))
     res_ = out
     from .. import core as _core
     res_ = res_ + _core.make_twins(res_, [('zero/once[0,1](x)/n=2', 'ctwindow'), ('zero/always[1,2](x)/n=2', 'ctminmax'), ('zero/(x) and (y)/n=[2, 2]', 'ctminmax'), ('free/eventually[0,1](x)/n=2', 'ctwindow')]) + _core.make_forkmode(res_, ['zero/(x) and (y)/n=[2, 2]', 'zero/once(x)/n=2'])
